@@ -507,6 +507,10 @@ fn try_parse_rtype_with_data(
             }),
             _ => None,
         },
+        Ok(RecordType::Unknown(tag)) if tokens.len() == 2 => Some(RecordTypeWithData::Unknown {
+            tag,
+            octets: tokens[1].1.clone(),
+        }),
         _ => None,
     }
 }
